@@ -16,6 +16,7 @@ import (
 	"hop.computer/hop/config"
 	"hop.computer/hop/hopserver"
 	"hop.computer/hop/pkg/glob"
+	"verif/harness/hopkit"
 	"verif/harness/rec"
 )
 
@@ -115,6 +116,12 @@ func main() {
 	pool := []string{"*", "a", "a*", "*b", "a*b", "ab", "b*", "*a*"}
 	hosts := all("ab", 3)
 	nlists := 0
+	realLists := 0
+	pki := hopkit.NewPKI()
+	var idents []*hopkit.Ident
+	for k := 0; k < 3; k++ {
+		idents = append(idents, pki.Issue("valid", fmt.Sprintf("vh%d.example", k)))
+	}
 	for i := 0; i < len(pool)*len(pool)*4 && nlists < 400; i++ {
 		nb := 1 + r.Intn(3)
 		var blocks [][]string
@@ -148,6 +155,33 @@ func main() {
 			w.Ev("hosts", "blocks", logged, "h", chars(h), "got", got, "pan", yn(pan))
 			vi, pan := vhost(vh, h)
 			w.Ev("vhost", "pats", vpats, "n", chars(h), "got", vi, "pan", yn(pan))
+		}
+		// the lookup a REAL hop server performs (its own closure): every name, in two orders, so that nothing a lookup
+		// leaves behind can change the next one
+		if nlists%4 == 0 {
+			var pats []string
+			for _, ps := range blocks {
+				pats = append(pats, ps[0])
+			}
+			if look, ok := hopkit.RealVhostLookup(idents, pats); ok {
+				order := append(append([]string{}, hosts...), hosts...)
+				for i, j := len(hosts), len(order)-1; i < j; i, j = i+1, j-1 {
+					order[i], order[j] = order[j], order[i]
+				}
+				for _, h := range order {
+					vi, pan := 0, false
+					func() {
+						defer func() {
+							if r := recover(); r != nil {
+								pan = true
+							}
+						}()
+						vi = look(h)
+					}()
+					w.Ev("vhost", "pats", vpats, "n", chars(h), "got", vi, "pan", yn(pan))
+				}
+				realLists++
+			}
 		}
 	}
 }
